@@ -59,6 +59,7 @@ func cmdCheck(args []string) int {
 	repo := fs.String("repo", envOr("VERIF_REPO", "/repo"), "repository root")
 	verifDir := fs.String("verif", envOr("VERIF_DIR", "/verif"), "verif root")
 	noReplay := fs.Bool("no-replay", false, "skip native replay of counterexamples")
+	outDir := fs.String("out", envOr("VERIF_OUT", ""), "write evidence and replays under this directory instead of the verif root")
 	var params multiFlag
 	fs.Var(&params, "param", "override harness parameter k=v")
 	fs.Parse(args[1:])
@@ -82,7 +83,7 @@ func cmdCheck(args []string) int {
 	}
 	loadT := time.Since(t0)
 	run := &Runner{Check: chk, Tier: *tier, Seed: seed, Prog: prog, Repo: *repo, Verif: *verifDir, Workers: *workers,
-		Only: *only, NoReplay: *noReplay, Overrides: map[string]int{}, LoadTime: loadT}
+		Only: *only, NoReplay: *noReplay, Overrides: map[string]int{}, LoadTime: loadT, Out: *outDir}
 	for _, p := range params {
 		kv := strings.SplitN(p, "=", 2)
 		if len(kv) == 2 {
